@@ -3,6 +3,7 @@ over the ghost file system of pyvc/files.py (assumption D2)."""
 from pyvc.api import *
 from pyvc import files, externals
 from pyvc.engine import SV, Ref, ClassRef
+from pyvc.ty import nth_pat
 import z3
 
 files.install()
@@ -224,3 +225,228 @@ contract("ghost:pd_close_twice", params=dict(p=PDT), ghost_scope=GS,
          requires=[pd_open("p")], modifies=["p"],
          ensures=["fs == dput(old(fs), p.__file_path, pickled_bb(old(p.__data)))"],
          modifies_ghost=["fs", "fh_state", "fh_pos"], props=["C20"])
+
+
+# =====================================================================================================================
+# C19  persistent fixed-length byte array
+# =====================================================================================================================
+PAM = "data_persistence/persistent_array.py:"
+SMF = PAM + "SimpleMultiFilePersistentFixedLengthBytesArray"
+SMFT = TObj(SMF)
+_PX = "_SimpleMultiFilePersistentFixedLengthBytesArray__"
+A_PATH, A_SZ, A_LEN, A_M, A_FN, A_OF = (_PX + n for n in ("local_path", "item_size", "array_len", "item_num_in_one_file",
+                                                          "file_num", "opened_files"))
+OFL = TList(TOpt(TFile))
+klass(SMF, fields={A_PATH: TStr, A_SZ: TInt, A_LEN: TInt, A_M: TInt, A_FN: TInt, A_OF: OFL},
+      invariant=["self.__item_size >= 1", "self.__array_len >= 1", "self.__item_num_in_one_file >= 1",
+                 "self.__file_num == (self.__array_len + self.__item_num_in_one_file - 1) // self.__item_num_in_one_file",
+                 "len(self.__opened_files) == self.__file_num"])
+
+FSs = sort(files.FS)
+_fs = z3.Const("pa_fs", FSs)
+_base, _pth = z3.Strings("pa_base pa_path")
+_i, _j, _k, _k2, _m, _sz = z3.Ints("pa_i pa_j pa_k pa_k2 pa_m pa_sz")
+_cc = z3.Const("pa_c", BYTES)
+_itos = lambda k: z3.If(k < 0, z3.Concat(z3.StringVal("-"), z3.IntToStr(-k)), z3.IntToStr(k))
+cpath = specfn("cpath", [TStr, TInt], TStr, py=lambda base, k: "%s_%d" % (base, k), opaque=True, macro=True,
+               doc="name of chunk file k of the array stored under base")
+cpath.define = lambda base, k: z3.Concat(base, z3.StringVal("_"), _itos(k))
+fsd = specfn("fsd", [files.FS, TStr], TBytes, doc="contents of a file; a missing file reads as empty (it is created empty on first use)")
+fsd.define = lambda fs, p: z3.If(OBY.is_none(z3.Select(fs, p)), z3.Empty(BYTES), OBY.val(z3.Select(fs, p)))
+aitem = specfn("aitem", [files.FS, TStr, TInt, TInt, TInt], TBytes,
+               doc="abstract view: item i of the array (m items of sz bytes per chunk file), unwritten regions read as zeros")
+aitem.define = lambda fs, base, m, sz, i: files.fitem(fsd(fs, cpath(base, i / m)), (i % m) * sz, sz)
+Len = z3.Length
+
+lemma("cpath_inj", [_base, _k, _k2], Imp(And(_k >= 0, _k2 >= 0, _k != _k2), cpath(_base, _k) != cpath(_base, _k2)),
+      patterns=[z3.MultiPattern(cpath(_base, _k), cpath(_base, _k2))], inline_defs=["cpath"], no_auto=True, unfold_only=[])
+lemma("cpath_not_meta", [_base, _k], cpath(_base, _k) != z3.Concat(_base, z3.StringVal("_meta")),
+      patterns=[cpath(_base, _k)], inline_defs=["cpath"], no_auto=True, unfold_only=[])
+lemma("aitem_len", [_fs, _base, _m, _sz, _i], Imp(And(_sz >= 0, _m >= 1, _i >= 0), Len(aitem(_fs, _base, _m, _sz, _i)) == _sz),
+      patterns=[aitem(_fs, _base, _m, _sz, _i)], uses=["fitem_len", "mul_mono"], no_auto=True,
+      unfold_only=["aitem"], use_inst=[("mul_mono", [z3.IntVal(0), _i % _m, _sz])])
+# creating a missing chunk file (empty) changes no item
+lemma("aitem_create", [_fs, _pth, _base, _m, _sz, _j],
+      Imp(OBY.is_none(z3.Select(_fs, _pth)),
+          aitem(z3.Store(_fs, _pth, OBY.some(z3.Empty(BYTES))), _base, _m, _sz, _j) == aitem(_fs, _base, _m, _sz, _j)),
+      patterns=[aitem(z3.Store(_fs, _pth, OBY.some(z3.Empty(BYTES))), _base, _m, _sz, _j)],
+      no_auto=True, unfold_only=["aitem", "fsd"], depth=2)
+# writing one padded item changes exactly that item of the view
+awrite = specfn("awrite", [files.FS, TStr, TInt, TInt, TInt, TBytes], files.FS,
+                doc="the file system after writing the bytes c over item i of the array (chunk file i div m, offset (i mod m)*sz)")
+awrite.define = lambda fs, base, m, sz, i, c: z3.Store(
+    fs, cpath(base, i / m), OBY.some(files.fwrite(fsd(fs, cpath(base, i / m)), (i % m) * sz, c)))
+_wfs = awrite(_fs, _base, _m, _sz, _i, _cc)
+lemma("aitem_write", [_fs, _base, _m, _sz, _i, _j, _cc],
+      Imp(And(_m >= 1, _sz >= 1, _i >= 0, _j >= 0, Len(_cc) == _sz),
+          aitem(_wfs, _base, _m, _sz, _j) == z3.If(_j == _i, _cc, aitem(_fs, _base, _m, _sz, _j))),
+      patterns=[aitem(_wfs, _base, _m, _sz, _j)],
+      uses=["fwrite_same", "fwrite_other", "cpath_inj", "mul_mono", "div_mod_unique"], ground_only=["mul_mono", "div_mod_unique"],
+      no_auto=True, unfold_only=["aitem", "fsd", "awrite"], depth=2,
+      cases=[_j == _i,
+             And(_j != _i, _j / _m != _i / _m),
+             (And(_j != _i, _j / _m == _i / _m, _j % _m < _i % _m), [("mul_mono", [_j % _m + 1, _i % _m, _sz])]),
+             (And(_j != _i, _j / _m == _i / _m, _j % _m > _i % _m), [("mul_mono", [_i % _m + 1, _j % _m, _sz])]),
+             And(_j != _i, _j / _m == _i / _m, _j % _m == _i % _m)])
+
+
+def _afld(E, env, name, who="self"):
+    v = E.cell(env[who])[2][name]
+    return E.list_sv(v).t if name == A_OF else (v.t if isinstance(v, SV) else E.to_sv(v).t)
+
+
+def _named(E, t):
+    """a fresh name for a compound term (z3 rejects some compound sequence terms inside patterns); definitional, hence sound"""
+    if z3.is_const(t):
+        return t
+    c = E.fresh("nm", TInt).t
+    n = z3.Const(str(c).replace("nm", "named"), t.sort())
+    E.assume(n == t)
+    return n
+
+
+def cache_ok(who="self", ghost=None):
+    """every cached file object is open and is the chunk file of its position, which exists"""
+    def f(E, env):
+        S = _named(E, _afld(E, env, A_OF, who))
+        base = _afld(E, env, A_PATH, who)
+        k = z3.Int("ck")
+        h = OFILE.val(S[k])
+        body = Imp(And(0 <= k, k < Len(S), OFILE.is_some(S[k])),
+                   And(_gsel(E, "fh_state", h) == 1, _gsel(E, "fh_path", h) == cpath(base, k),
+                       Not(OBY.is_none(z3.Select(E.ghostv["fs"].t, cpath(base, k))))))
+        return SV(z3.ForAll([k], body, patterns=[nth_pat(S, k)]), TBool)
+    return f
+
+
+def view_same(who="self"):
+    """no item of the abstract view differs from the view at entry"""
+    def f(E, env):
+        pre_env, pre_heap, pre_ghost = E.old_stack[-1]
+        base, m, sz = (_afld(E, env, n, who) for n in (A_PATH, A_M, A_SZ))
+        j = z3.Int("vj")
+        new, old_ = _named(E, E.ghostv["fs"].t), pre_ghost["fs"].t
+        return SV(z3.ForAll([j], aitem(new, base, m, sz, j) == aitem(old_, base, m, sz, j),
+                            patterns=[aitem(new, base, m, sz, j)]), TBool)
+    return f
+
+
+def fh_grow(E, env):
+    """file objects that existed at entry keep their state and path (new ones may have been opened)"""
+    pre_env, pre_heap, pre_ghost = E.old_stack[-1]
+    h = z3.Int("fh_h")
+    cache = {}
+    def sel(g, src):
+        d = src[g]
+        if (g, id(src)) not in cache:
+            cache[(g, id(src))] = _named(E, d.t)
+        return sort(TOpt(d.ty.val)).val(z3.Select(cache[(g, id(src))], h))
+    return SV(z3.ForAll([h], Imp(sel("fh_state", pre_ghost) != 0,
+                                 And(sel("fh_state", E.ghostv) == sel("fh_state", pre_ghost),
+                                     sel("fh_path", E.ghostv) == sel("fh_path", pre_ghost))),
+                        patterns=[sel("fh_state", E.ghostv), sel("fh_path", E.ghostv)]), TBool)
+
+
+SCALARS_SAME = ["self.__local_path == old(self.__local_path)", "self.__item_size == old(self.__item_size)",
+                "self.__array_len == old(self.__array_len)", "self.__item_num_in_one_file == old(self.__item_num_in_one_file)",
+                "self.__file_num == old(self.__file_num)", "len(self.__opened_files) == old(len(self.__opened_files))"]
+AINV = ["inv(self)", cache_ok()]
+FGHOST = ["fs", "fh_state", "fh_path", "fh_pos"]
+CP = "cpath(self.__local_path, file_id)"
+contract(SMF + "._get_file_by_id", params=dict(self=SMFT, file_id=TInt), returns=TFile, modifies=["self"],
+         requires=AINV + ["0 <= file_id", "file_id < self.__file_num"], reveal=["cpath"],
+         ensures=AINV + SCALARS_SAME + [fh_grow,
+                 "fh_state[result] == 1", "fh_path[result] == " + CP, CP + " in fs",
+                 "fs == (old(fs) if %s in old(fs) else dput(old(fs), %s, b''))" % (CP, CP)],
+         modifies_ghost=FGHOST, no_runtime=True, props=["C19"])
+AIT = "aitem(%s, self.__local_path, self.__item_num_in_one_file, self.__item_size, %s)"
+CPI = "cpath(self.__local_path, index // self.__item_num_in_one_file)"
+IDX_OK = ["0 <= index", "index < self.__array_len"]
+# index arithmetic: a valid index lies in a valid chunk file (file_num = ceil(len / m))
+FILE_HINTS = [("div_bounds", ["index", "self.__item_num_in_one_file"]),
+              ("div_bounds", ["self.__array_len + self.__item_num_in_one_file - 1", "self.__item_num_in_one_file"]),
+              ("mul_mono", ["index // self.__item_num_in_one_file", "self.__file_num - 1", "self.__item_num_in_one_file"]),
+              ("mul_mono", ["self.__file_num", "index // self.__item_num_in_one_file", "self.__item_num_in_one_file"]),
+              ("mul_mono", ["0", "index % self.__item_num_in_one_file", "self.__item_size"])]
+contract(SMF + "._get_bytes_by_index", params=dict(self=SMFT, index=TInt), returns=TBytes, modifies=["self"],
+         requires=AINV + IDX_OK, hints=FILE_HINTS, lemmas=["aitem_create", "aitem_len", "fitem_len"],
+         unfold_only=["aitem", "fsd", "fitem"],
+         ensures=AINV + SCALARS_SAME + [fh_grow, "result == " + AIT % ("old(fs)", "index"), "len(result) == self.__item_size",
+                 "fs == (old(fs) if %s in old(fs) else dput(old(fs), %s, b''))" % (CPI, CPI), view_same()],
+         modifies_ghost=FGHOST, no_runtime=True, props=["C19"])
+PADDED = "zeros(self.__item_size - len(content)) + content"
+contract(SMF + "._write_bytes_to_file", params=dict(self=SMFT, index=TInt, content=TBytes), modifies=["self"],
+         requires=AINV + IDX_OK, hints=FILE_HINTS,
+         raises={"ValueError": dict(when="len(content) > self.__item_size", iff=True)},
+         raise_ensures={"ValueError": NOFX + SCALARS_SAME + ["self.__opened_files == old(self.__opened_files)"]},
+         ensures=AINV + SCALARS_SAME + [fh_grow,
+                 "fs == awrite(old(fs), self.__local_path, self.__item_num_in_one_file, self.__item_size, index, %s)" % PADDED],
+         unfold_only=["awrite", "fsd"],
+         modifies_ghost=FGHOST, no_runtime=True, props=["C19"])
+
+# ---- reads ------------------------------------------------------------------------------------------------------------
+BLs = sort(TList(TBytes))
+_st, _stp, _cnt, _t = z3.Ints("pa_st pa_stp pa_cnt pa_t")
+apick = specfn("apick", [files.FS, TStr, TInt, TInt, TInt, TInt, TInt], TList(TBytes),
+               doc="items of the view at positions start, start+step, ... (count of them)")
+apick.define = lambda fs, base, m, sz, st, stp, cnt: z3.If(
+    cnt <= 0, z3.Empty(BLs),
+    z3.Concat(apick(fs, base, m, sz, st, stp, cnt - 1), z3.Unit(aitem(fs, base, m, sz, st + (cnt - 1) * stp))))
+lemma("apick_len", [_fs, _base, _m, _sz, _st, _stp, _cnt], Len(apick(_fs, _base, _m, _sz, _st, _stp, _cnt)) == z3.If(_cnt <= 0, 0, _cnt),
+      patterns=[apick(_fs, _base, _m, _sz, _st, _stp, _cnt)], induct=("int", _cnt), inst=[[_fs, _base, _m, _sz, _st, _stp, _cnt - 1]],
+      no_auto=True, unfold_only=["apick"])
+lemma("apick_nth", [_fs, _base, _m, _sz, _st, _stp, _cnt, _t],
+      Imp(And(0 <= _t, _t < _cnt), apick(_fs, _base, _m, _sz, _st, _stp, _cnt)[_t] == aitem(_fs, _base, _m, _sz, _st + _t * _stp)),
+      patterns=None, induct=("int", _cnt), inst=[[_fs, _base, _m, _sz, _st, _stp, _cnt - 1, _t]], uses=["apick_len"],
+      no_auto=True, unfold_only=["apick"])
+inline(SMF + ".__len__")
+VIEW_RO = AINV + SCALARS_SAME + [fh_grow, view_same()]
+contract(SMF + ".__getitem__#int", params=dict(self=SMFT, item=TInt), returns=TBytes, modifies=["self"], requires=AINV,
+         raises={"IndexError": dict(when="item >= self.__array_len or item < -self.__array_len", iff=True)},
+         raise_ensures={"IndexError": NOFX},
+         ensures=VIEW_RO + ["result == " + AIT % ("old(fs)", "item % self.__array_len"), "len(result) == self.__item_size"],
+         modifies_ghost=FGHOST, no_runtime=True, props=["C19"])
+SI = "item.indices(self.__array_len)"
+RANGE_CNT = [
+    "len(result) == 0 or ({0}[0] + (len(result) - 1) * {0}[2] < {0}[1] if {0}[2] > 0 else {0}[0] + (len(result) - 1) * {0}[2] > {0}[1])".format(SI),
+    "not ({0}[0] + len(result) * {0}[2] < {0}[1] if {0}[2] > 0 else {0}[0] + len(result) * {0}[2] > {0}[1])".format(SI)]
+APK = "apick(old(fs), self.__local_path, self.__item_num_in_one_file, self.__item_size, %s, %s, %s)"
+contract(SMF + ".__getitem__#slice", params=dict(self=SMFT, item=TSlice), returns=TList(TBytes), modifies=["self"],
+         requires=AINV + ["item.step is None or item.step != 0"],
+         ensures=VIEW_RO + ["result == " + APK % (SI + "[0]", SI + "[2]", "len(result)")] + RANGE_CNT,
+         locals={"ret": TList(TBytes)},
+         loops={0: dict(invariant=VIEW_RO + ["len(ret) == it", "ret == " + APK % ("start", "stride", "it"),
+                                             "0 <= start or stride < 0", "start <= self.__array_len", "-1 <= stop",
+                                             "stop <= self.__array_len", "start < self.__array_len or stride > 0"])},
+         modifies_ghost=FGHOST, no_runtime=True, props=["C19"])
+
+# ---- writes -----------------------------------------------------------------------------------------------------------
+def view_upd(idx_src, val_src, who="self"):
+    """the view after the call is the view at entry with item idx replaced by val (every other item unchanged)"""
+    def f(E, env):
+        pre_env, pre_heap, pre_ghost = E.old_stack[-1]
+        base, m, sz = (_afld(E, env, n, who) for n in (A_PATH, A_M, A_SZ))
+        idx = z3_int(E.spec_eval(idx_src, env, old=True))
+        val = E.to_sv(E.spec_eval(val_src, env, old=True), TBytes).t
+        j = z3.Int("vj")
+        new, old_ = _named(E, E.ghostv["fs"].t), pre_ghost["fs"].t
+        return SV(z3.ForAll([j], Imp(j >= 0, aitem(new, base, m, sz, j) == z3.If(j == idx, val, aitem(old_, base, m, sz, j))),
+                            patterns=[aitem(new, base, m, sz, j)]), TBool)
+    return f
+
+
+KN = "key % self.__array_len"
+PADV = "zeros(self.__item_size - len(value)) + value"
+WR_HINTS = [(ln, [e.replace("index", "(%s)" % KN) for e in es]) for ln, es in FILE_HINTS]
+contract(SMF + ".__setitem__#int", params=dict(self=SMFT, key=TInt, value=TBytes), modifies=["self"], requires=AINV,
+         raises={"IndexError": dict(when="key >= self.__array_len or key < -self.__array_len", iff=True),
+                 "ValueError": dict(when="not (key >= self.__array_len or key < -self.__array_len) and len(value) > self.__item_size", iff=True)},
+         raise_ensures={"IndexError": NOFX, "ValueError": NOFX},
+         lemmas=["aitem_write", "zeros_len"],
+         ensures=AINV + SCALARS_SAME + [fh_grow, view_upd(KN, PADV)],
+         modifies_ghost=FGHOST, no_runtime=True, props=["C19"])
+contract(SMF + ".__setitem__#notbytes", params=dict(self=SMFT, key=TInt, value=TInt), modifies=["self"], requires=AINV,
+         raises={"IndexError": dict(when="key >= self.__array_len or key < -self.__array_len", iff=True),
+                 "TypeError": dict(when="not (key >= self.__array_len or key < -self.__array_len)", iff=True)},
+         raise_ensures={"IndexError": NOFX, "TypeError": NOFX},
+         modifies_ghost=FGHOST, no_runtime=True, props=["C19"])
